@@ -16,7 +16,7 @@ package main
 //	sizeunk <unknown>                    | <size>
 //	appunk <unknown>                     | ok <bytes> / err
 //	dec <f|s> <verbatim ids> <struct ids> <bytes> | ok <exts> <unknown> / err
-//	enc <exts> <unknown>                 | ok <bytes> <size> / err <size>
+//	enc <f|s> <exts> <unknown>           | ok <bytes> <size> / err <size>
 //
 // P lines: Unmarshal(Marshal(m)) Equal m, Size = len(Marshal), fast and slow paths
 // accept the same inputs and give the same content / bytes, merge = concatenation.
@@ -219,12 +219,12 @@ func msetField(c *Ctx, b []byte, num protowire.Number, depth int) []byte {
 // a payload for an extension message: mostly a well-formed field sequence
 func msetPayload(c *Ctx) []byte {
 	var b []byte
-	switch c.Intn(12) {
-	case 0:
+	switch c.Intn(24) {
+	case 0, 1:
 		return nil
-	case 1: // non-message payload
+	case 2: // non-message payload
 		return c.Bytes(1 + c.Intn(6))
-	case 2: // number above MaxValidNumber at top level
+	case 3: // number above MaxValidNumber at top level
 		b = protowire.AppendVarint(b, protowire.EncodeTag(1<<29+protowire.Number(c.Intn(3)), protowire.VarintType))
 		return append(b, 1)
 	}
@@ -240,16 +240,16 @@ func msetPayload(c *Ctx) []byte {
 }
 
 func msetID(c *Ctx) uint64 {
-	switch c.Intn(10) {
-	case 0, 1, 2:
+	switch k := c.Intn(30); {
+	case k < 9:
 		return uint64(msetVerbatimIDs[c.Intn(len(msetVerbatimIDs))])
-	case 3, 4:
+	case k < 15:
 		return uint64(msetStructIDs[c.Intn(len(msetStructIDs))])
-	case 5, 6:
+	case k < 21:
 		return uint64(msetUnknownIDs[c.Intn(len(msetUnknownIDs))])
-	case 7:
+	case k < 24:
 		return uint64(1 + c.Intn(1<<16))
-	case 8:
+	case k == 24: // invalid type ids
 		return []uint64{0, 1 << 31, 1<<31 + 1, 1 << 32, 1<<32 + 1000, 1<<64 - 1}[c.Intn(6)]
 	default:
 		return uint64(msetVerbatimIDs[c.Intn(3)])
@@ -316,7 +316,7 @@ func msetItemBody(c *Ctx, b []byte) []byte {
 			}
 		}
 	}
-	switch c.Intn(16) {
+	switch c.Intn(40) {
 	case 0: // missing end
 	case 1: // wrong end group number
 		b = protowire.AppendTag(b, protowire.Number(2+c.Intn(3)), protowire.EndGroupType)
@@ -702,17 +702,21 @@ func msetOpEnc(c *Ctx, v *msetVariant, exts []msetExt, unk []byte) {
 		if len(unk) > 0 {
 			m.SetUnknown(append(protoreflect.RawFields(nil), unk...))
 		}
+		path := "s"
+		if t.fast {
+			path = "f"
+		}
 		size := msetMarshal.Size(m.Interface())
 		out, err := msetMarshal.Marshal(m.Interface())
 		if err != nil {
-			c.Case("mset", "enc", []string{xtok, HexB(unk)}, []string{"err", HexN(uint64(size))})
+			c.Case("mset", "enc", []string{path, xtok, HexB(unk)}, []string{"err", HexN(uint64(size))})
 			c.Stat("enc:err")
 			outs = append(outs, nil)
 			oks = append(oks, false)
 			continue
 		}
 		c.Stat("enc:ok")
-		c.Case("mset", "enc", []string{xtok, HexB(unk)}, []string{"ok", HexB(out), HexN(uint64(size))})
+		c.Case("mset", "enc", []string{path, xtok, HexB(unk)}, []string{"ok", HexB(out), HexN(uint64(size))})
 		outs = append(outs, out)
 		oks = append(oks, true)
 		if size != len(out) {
@@ -856,9 +860,10 @@ func msetCorpus(c *Ctx) [][]byte {
 func famMset(c *Ctx) {
 	msetSetup()
 	regs := []string{"all", "gen", "none"}
-	runAll := func(b []byte) {
+	round := 0
+	runAll := func(b []byte, every bool) {
 		msetOpEvents(c, b)
-		// every item body (after a start tag 0x0b at a field boundary) also goes through citem
+		// every item body (after a start tag at a field boundary) also goes through citem
 		for rest := b; len(rest) > 0; {
 			num, typ, n := protowire.ConsumeTag(rest)
 			if n < 0 {
@@ -874,16 +879,23 @@ func famMset(c *Ctx) {
 			}
 			rest = rest[n:]
 		}
-		for _, v := range msetVariants {
-			for _, r := range regs {
-				msetOpDec(c, v, r, b)
+		// the corpus goes through every variant and registry; generated inputs rotate
+		round++
+		for i, v := range msetVariants {
+			if !every && i != round%len(msetVariants) {
+				continue
+			}
+			for j, r := range regs {
+				if every || j == 0 || j == 1+(round/len(msetVariants))%2 {
+					msetOpDec(c, v, r, b)
+				}
 			}
 			msetOpContainer(c, v, b)
 		}
 	}
 	for _, b := range msetCorpus(c) {
 		c.Stat("corpus")
-		runAll(b)
+		runAll(b, true)
 	}
 	for _, id := range []uint64{1, 4, 127, 128, 1000, 16383, 16384, 1<<29 - 1, 1 << 29, 1<<31 - 1} {
 		for _, p := range [][]byte{nil, {8, 1}, bytes.Repeat([]byte{0xaa}, 127), bytes.Repeat([]byte{0xbb}, 128), bytes.Repeat([]byte{1}, 16384)} {
@@ -894,14 +906,14 @@ func famMset(c *Ctx) {
 		switch k := c.Intn(10); {
 		case k < 4: // structured, mostly valid
 			c.Stat("gen:structured")
-			runAll(msetGen(c))
+			runAll(msetGen(c), false)
 		case k < 6: // malformed stream
 			c.Stat("gen:mutated")
 			b := msetGen(c)
 			for j, m := 0, 1+c.Intn(2); j < m; j++ {
 				b = msetMutate(c, b)
 			}
-			runAll(b)
+			runAll(b, false)
 		case k == 6:
 			c.Stat("gen:item")
 			id := msetID(c)
